@@ -83,10 +83,10 @@ func (s *sys) Key() string { return s.lastKey }
 func (s *sys) OpString(i int) string {
 	sp := s.specs[s.ops[i].actor]
 	if s.ops[i].c.Op == "Sub" {
-		return sp.name + "=" + sp.recv + "." + s.ops[i].c.String()
+		return sp.name + "=" + sp.recv + "." + callString(s.ops[i].c)
 	}
 
-	return sp.name + "." + s.ops[i].c.String()
+	return sp.name + "." + callString(s.ops[i].c)
 }
 
 func newParent(win bool) (*memfs.MemFS, map[string]avfs.UserReader, error) {
@@ -619,9 +619,22 @@ func observe(v avfs.VFS, p string, maskName bool) (kind, full string) {
 	out := r.Name + " " + r.Val
 
 	var r2 result
-	if strings.HasPrefix(r.Val, "d") {
+
+	switch {
+	case strings.HasPrefix(r.Val, "l "):
+		// a symbolic link (made by the Symlink calls of the alphabet) is read, not
+		// followed: paths that resolve through a link are outside the property
+		k, msg := fsx.Guard(func() {
+			t, err := v.Readlink(p)
+			r2 = errResult(err)
+			r2.Val = t
+		})
+		if k != "" {
+			r2 = result{Kind: k, Msg: msg}
+		}
+	case strings.HasPrefix(r.Val, "d"):
 		r2 = exec(v, fsx.Call{Op: "ReadDir", A: p}, nil)
-	} else {
+	default:
 		r2 = exec(v, fsx.Call{Op: "ReadFile", A: p}, nil)
 	}
 
@@ -728,7 +741,8 @@ func (d detail) String() string {
 // creates reports whether a successful call of this kind adds an entry.
 func creates(c fsx.Call) bool {
 	switch c.Op {
-	case "Mkdir", "MkdirAll", "WriteFile", "Symlink", "CreateTemp", "MkdirTemp", "Create":
+	case "Mkdir", "MkdirAll", "WriteFile", "Symlink", "CreateTemp", "MkdirTemp", "Create", "Link", "Rename":
+		// (Link, Rename: the new name B)
 		return true
 	case "OpenFile":
 		return c.Flag&os.O_CREATE != 0
@@ -795,7 +809,7 @@ func (s *sys) Step(i int) bfs.StepResult {
 
 	det := detail{
 		Variant: s.variant, Actor: x.name, Phase: phase, User: x.user, UMask: fmt.Sprintf("%03o", x.umask), Cwd: x.cwd,
-		Call: c.String(),
+		Call: callString(c),
 	}
 
 	if x.isView() {
@@ -835,8 +849,13 @@ func (s *sys) Step(i int) bfs.StepResult {
 	// an existing name without creating anything)
 	existed := false
 
-	if creates(c) {
-		fsx.Guard(func() { _, err := x.fs.Lstat(c.A); existed = err == nil })
+	if creates(c) && !isTmpOp[c.Op] { // (CreateTemp, MkdirTemp: A is the directory, the name is always new)
+		name := c.A
+		if isPairOp[c.Op] {
+			name = c.B
+		}
+
+		fsx.Guard(func() { _, err := x.fs.Lstat(name); existed = err == nil })
 	}
 
 	rr := exec(x.fs, c, s.users)
@@ -846,14 +865,14 @@ func (s *sys) Step(i int) bfs.StepResult {
 	if hasTwin {
 		s.mirror(x)
 		tr = exec(s.T, tcOS, s.tusers)
-		det.TwinCall = tcOS.String()
+		det.TwinCall = callString(tcOS)
 		det.Twin = tr.String()
 	}
 
 	det.Real = rr.String()
 
 	if s.trace != nil {
-		s.trace(fmt.Sprintf("%-44s real=%s | twin %s = %s", s.OpString(i), rr, tcOS.String(), tr))
+		s.trace(fmt.Sprintf("%-44s real=%s | twin %s = %s", s.OpString(i), rr, callString(tcOS), tr))
 	}
 
 	var after, tafter []string
